@@ -13,6 +13,7 @@ EXPLANATION = (
     "by a comparison of n with len() (R5: std's contract nth(n >= len) == None, which step_by/skip rely on); len() measures the "
     "collection whose get(idx - 1)? ends next() (R6); in every nth the caller's n (usize::MAX included) takes part in overflow-capable "
     "arithmetic only after a dominating comparison of n itself or through min / saturating_* / checked_* (R7). "
+    "R8: the bulk step of nth() feeds exactly the skills next() feeds and under the same private conditions (a container's forwarding process() is inlined; guards shared by every feed of a function — position, loop — are factored out). "
     "nth(n) == n+1 x next, len == remaining, behaviour after exhaustion are arithmetic over runtime state: NOT decided.")
 
 GD = 'any::difficulty::gradual::GradualDifficulty'
@@ -170,6 +171,7 @@ def run(ctx):
     r3(ctx, F)
     r4_r5(ctx, F)
     r7(ctx, F)
+    r8(ctx, F)
     ctx.not_decided('nth(n) == n+1 next calls; len()/size_hint() == number of values still to come; None after exhaustion without panic')
 
 
@@ -341,3 +343,78 @@ def r7(ctx, F):
                         'step overflows (panic with overflow checks, wrap-around to an earlier index without) instead of returning None' % (
                             fn.path, '; '.join('%s at line %s' % (e, l) for l, e in bad[:3])))
     ctx.floor('C15-R7', n7, 10, 'nth implementations of the gradual calculators')
+
+
+# ---- R8: nth()'s bulk step feeds the same skills as next(), under the same private conditions
+def _forwards_process(g):
+    """a container's `process` that only hands the object on to the `process` of its own fields"""
+    return g.name == 'process' and g.kind == 'AssocFn' and not g.impl_trait and any(t['func'].get('name') == 'process' for _, t in g.calls())
+
+
+def _root_fields(fn, op, depth=0):
+    from props.C10 import _root
+    return _root(fn, op)
+
+
+def skill_feeds(F, fn):
+    """{receiver field path: set of frozenset(private guard facts)} of the skill `process` calls of fn (container forwarders inlined);
+    a private fact is one that does not guard every feed of the function alike"""
+    import inline
+    g = inline.inlined(F, fn, depth=2, force=_forwards_process)
+    sites = []
+    for bi, t in g.calls():
+        if t['func'].get('name') != 'process' or not t['args']:
+            continue
+        cal = F.fn(t['func'].get('path') or '')
+        if cal is not None and _forwards_process(cal):
+            continue                     # an uninlined forwarder (depth bound): reported by the caller as an unknown shape
+        r = _root_fields(g, t['args'][0])
+        if r is None or r[0] != 1 or len(r) < 2:
+            continue
+        facts = set()
+        for c, lab in arms.bool_facts(g, bi):
+            facts.add('%s = %s' % (prov.show(prov.strip(c, names={'likely', 'unlikely'}), maxdepth=6), lab))
+        sites.append((tuple(r[1:]), t['func'].get('path') or t['func'].get('name'), facts, t.get('ln')))
+    if not sites:
+        return {}, g
+    common = set.intersection(*[s[2] for s in sites])
+    out = {}
+    for r, cp, facts, ln in sites:
+        out.setdefault(r, set()).add((cp, frozenset(facts - common)))
+    return out, g
+
+
+def r8(ctx, F):
+    n = 0
+    for mode in MODES:
+        adt = gd_adt(mode)
+        nxt = F.method(adt, 'next', trait='std::iter::Iterator')
+        nth = F.method(adt, 'nth', trait='std::iter::Iterator')
+        if not (nxt and nth):
+            ctx.violation('C15-R8', 'anchor-missing:%s' % mode, 'Iterator::{next, nth} of %s not found' % adt)
+            continue
+        a, _ = skill_feeds(F, nxt)
+        b, _ = skill_feeds(F, nth)
+        if not a:
+            ctx.violation('C15-R8', 'anchor-missing:%s:feeds' % mode, '%s::next feeds no skill' % adt, nxt.where())
+            continue
+        n += len(a)
+        if not b:
+            # nth() that only repeats next() has no bulk step of its own
+            calls_next = any(t['func'].get('name') == 'next' for _, t in nth.calls())
+            ctx.require(calls_next, 'C15-R8', '%s:bulk' % mode, '%s::nth has no bulk step: it repeats next()' % adt, nth.where(),
+                        bad='%s::nth neither feeds the skills nor repeats next()' % adt)
+            continue
+        for r in sorted(set(a) | set(b)):
+            fa, fb = a.get(r), b.get(r)
+            name = '.'.join(r)
+            if fa is None or fb is None:
+                ctx.violation('C15-R8', '%s:%s' % (mode, name), '%s: the skill `%s` is fed by %s but not by %s: after a bulk step (nth, skip, step_by) the values differ from plain iteration' % (
+                    adt, name, 'next()' if fa else 'nth()', 'nth()' if fa else 'next()'), (nth if fa else nxt).where())
+                continue
+            ga = {g for _, g in fa}
+            gb = {g for _, g in fb}
+            ctx.require(ga == gb, 'C15-R8', '%s:%s' % (mode, name), '%s: `%s` is fed alike by next() and by the bulk step of nth()' % (adt, name), nth.where(),
+                        bad='%s: the skill `%s` is fed under different conditions by next() (%s) and by the bulk step of nth() (%s): nth(n) no longer equals n+1 next() calls' % (
+                            adt, name, sorted(map(sorted, ga)) or 'always', sorted(map(sorted, gb)) or 'always'))
+    ctx.floor('C15-R8', n, 8, 'skills fed by next() over the four modes')
